@@ -364,3 +364,92 @@ Theorem C20_gone_records_are_not_inert_by_accident :
 Proof. exact gx_conflict_if_not_gone. Qed.
 Print Assumptions C20_gone_records_are_not_inert_by_accident.
 
+
+(* ---- consequences of transparency: Proofs/MultiVersion.v transports the along-every-history
+   theorems of C01, C03, C04, C05, C06, C07 to multi-version histories under the identity
+   converter (stated in Properties/C01.v ... C07.v); here the example. ---- *)
+From Coq Require Import List ZArith String Bool Arith Lia Permutation.
+From SMD Require Import Model.Value Model.Order Model.PathElem Model.PathSet Model.Schema Model.Walk
+  Model.Validate Model.FieldSet Model.Remove Model.Merge Model.Compare Model.Matcher Model.Reconcile
+  Model.Updater
+  Spec.PathsAsSets Spec.RefValid Spec.Resolve Spec.Agree Spec.RefDiff Spec.Examples
+  Proofs.OrderLaws Proofs.PathSetLaws Proofs.SchemaOk Proofs.FieldSetBase Proofs.FieldSetPaths
+  Proofs.FieldSetWf Proofs.FieldSetLaws Proofs.RemoveAbsent Proofs.RemoveWf Proofs.ResolveLaws
+  Proofs.UpdaterLaws Proofs.UpdaterLaws2 Proofs.MergeLaws Proofs.MergeAgree
+  Proofs.RemoveFrame Proofs.EnLaws Proofs.NodeSet Proofs.KeyFields Proofs.VeqbResolve
+  Proofs.SetCheckers Proofs.ApplyEffect Proofs.Visible Proofs.ApplyInv Proofs.History
+  Proofs.TransparentPrune Proofs.TransparentCore Proofs.TransparentStep Proofs.Transparent
+  Proofs.Reapply Proofs.ConflictsApply Proofs.NoOtherFailure Proofs.RecordsHistory
+  Proofs.MultiVersionBase.
+From SMD Require Proofs.ApplyPrune.
+From SMD Require Import Proofs.MultiVersion.
+Theorem C20_multi_version_example :
+  setting_ok exr_config FieldSetLaws.ex_R "v1" /\
+         one_schema exr_config "v1" /\
+         order_perm exr_config /\
+         Forall (vop_ok exr_config "v1") tx_ops /\
+         map fst tx_ops = "v1" :: "v2" :: "v3" :: "v3" :: "v2" :: "v1" :: nil /\
+         (forall force : bool, op_ok exr_config "v1" (HApply "c" mx_cfg force)) /\
+         vrun exr_config "v1" tx_ops =
+         ("v1", tx_obj,
+          ("a", {| mr_set := tx_set_a; mr_ver := "v1"; mr_applied := true |})
+          :: ("b", {| mr_set := tx_set_b; mr_ver := "v2"; mr_applied := false |}) :: nil) /\
+         vstep_outcome_ok exr_config (vrun exr_config "v1" tx_ops)
+           ("v4", HApply "c" mx_cfg false) /\
+         vstep_outcome_ok exr_config (vrun exr_config "v1" tx_ops) ("v4", HApply "c" mx_cfg true) /\
+         present ex_schema ex_rt tx_obj
+           (PEField "items" :: PEKey (("name", VStr "y") :: nil) :: PEField "vv" :: nil) = true /\
+         (exists (o : option tv) (mf' : managed),
+            apply_op exr_config ("v1", tx_obj) ("v4", mx_cfg) "v4"
+              (("a", {| mr_set := tx_set_a; mr_ver := "v1"; mr_applied := true |})
+               :: ("b", {| mr_set := tx_set_b; mr_ver := "v2"; mr_applied := false |}) :: nil)
+              "c" true = UOk (o, mf')) /\
+         (forall (o : option tv) (mf' : managed),
+          apply_op exr_config ("v1", tx_obj) ("v4", mx_cfg) "v4"
+            (("a", {| mr_set := tx_set_a; mr_ver := "v1"; mr_applied := true |})
+             :: ("b", {| mr_set := tx_set_b; mr_ver := "v2"; mr_applied := false |}) :: nil) "c"
+            true = UOk (o, mf') ->
+          let res := match o with
+                     | Some t => snd t
+                     | None => tx_obj
+                     end in
+          let d := ref_diff ex_schema ex_rt tx_obj res in
+          agrees ex_schema ex_rt mx_cfg res = true /\
+          ((exists r : mrec,
+              mf_get "b"
+                (("a", {| mr_set := tx_set_a; mr_ver := "v1"; mr_applied := true |})
+                 :: ("b", {| mr_set := tx_set_b; mr_ver := "v2"; mr_applied := false |}) :: nil) =
+              Some r /\ ps_has (PEField "aa" :: nil) (mr_set r) = true) /\
+           (pmem (PEField "aa" :: nil) (rd_modified d) = true \/
+            pmem (PEField "aa" :: nil) (rd_added d) = true)) /\
+          ~
+          (pmem (PEField "items" :: PEKey (("name", VStr "y") :: nil) :: nil) (rd_modified d) =
+           true \/
+           pmem (PEField "items" :: PEKey (("name", VStr "y") :: nil) :: nil) (rd_added d) = true) /\
+          (exists rc : mrec,
+             mf_get "c" mf' = Some rc /\
+             mr_ver rc = "v4" /\
+             mr_applied rc = true /\
+             ps_has (PEField "aa" :: nil) (mr_set rc) = true /\
+             ps_has (PEField "items" :: PEKey (("name", VStr "y") :: nil) :: PEField "vv" :: nil)
+               (mr_set rc) = false) /\
+          (forall rb : mrec,
+           mf_get "b" mf' = Some rb -> mr_ver rb = "v2" /\ mr_applied rb = false) /\
+          (forall ra : mrec, mf_get "a" mf' = Some ra -> mr_ver ra = "v1" /\ mr_applied ra = true) /\
+          (exists (o2 : option tv) (mf'' : managed),
+             apply_op exr_config match o with
+                                 | Some t => t
+                                 | None => ("v1", tx_obj)
+                                 end ("v4", mx_cfg) "v4" mf' "c" false = 
+             UOk (o2, mf'') /\ o2 = None /\ same_records mf' mf'')) /\
+         apply_op exr_config ("v1", tx_obj) ("v4", mx_cfg) "v4"
+           (("a", {| mr_set := tx_set_a; mr_ver := "v1"; mr_applied := true |})
+            :: ("b", {| mr_set := tx_set_b; mr_ver := "v2"; mr_applied := false |}) :: nil) "c"
+           false = UErr (EConflict (("b", PEField "aa" :: nil) :: nil)) /\
+         apply_op exr_config ("v1", tx_obj) ("v4", mx_cfg) "v4"
+           (("a", {| mr_set := tx_set_a; mr_ver := "v1"; mr_applied := true |})
+            :: ("b", {| mr_set := tx_set_b; mr_ver := "v2"; mr_applied := false |}) :: nil) "c"
+           true = UOk (Some ("v1", mx_res), mx_mf).
+Proof. exact mv_example. Qed.
+Print Assumptions C20_multi_version_example.
+
